@@ -601,6 +601,11 @@ func checkSlot(owner, lit *Func, slotObj types.Object) string {
 		return ok && objOf(info, ix.Index) == slotObj && st.Rhs != nil && objOf(info, st.Rhs) == leaf
 	}
 	for _, st := range stores {
+		if ix, ok := ast.Unparen(st.Lhs).(*ast.IndexExpr); ok && !isIndexStore(st) && st.Rhs != nil && objOf(info, st.Rhs) == leaf {
+			if o := objOf(info, ix.Index); o != nil && o != slotObj {
+				return "the leaf is stored at pendingLeaves[" + exprString(ix.Index) + "] (" + st.Pos() + ", variable declared at " + owner.Prog.Pos(o.Pos()) + ") but the waiter reports the slot held by a different variable (declared at " + owner.Prog.Pos(slotObj.Pos()) + "): the acknowledged index is not the one the leaf is sequenced at"
+			}
+		}
 		if !isAppendStore(st) && !isIndexStore(st) {
 			return "pool.pendingLeaves is modified at " + st.Pos() + " other than by appending the leaf or replacing slot[n]"
 		}
@@ -635,6 +640,30 @@ func checkSlot(owner, lit *Func, slotObj types.Object) string {
 				return "the slot is len(pendingLeaves) but the leaf is not appended on every path to the wait closure"
 			}
 			// and no other append between def and the append (would shift the slot): appends only of this leaf => fine
+		case d.Kind == DefAssign && d.Idx >= 0:
+			// n, ok = p.evict(): the slot freed by the eviction helper (its body is validated by C17.b):
+			// must be followed by pendingLeaves[n] = leaf on every path to the closure
+			eh := findEvictHelper(owner)
+			if eh == nil || d.Node != eh.Call.Node || d.Idx != eh.SlotIdx {
+				return "the slot is assigned from " + exprString(d.Rhs) + ", which is not a pending low-priority slot"
+			}
+			if ps, _ := eh.validate(); len(ps) > 0 {
+				return "the eviction helper " + eh.H.Name + " is not a single-slot eviction: " + ps[0]
+			}
+			stop := func(p Point, n ast.Node) bool {
+				if redefined(p, n) {
+					return true
+				}
+				for _, st := range stores {
+					if st.P == p && isIndexStore(st) {
+						return true
+					}
+				}
+				return false
+			}
+			if pt, _ := g.Reach(ds.After(), Cut{Stop: stop}, atSite(litSites[0])); pt != nil {
+				return "an evicted slot is taken but the leaf is not stored at that slot on every path to the wait closure"
+			}
 		case d.Kind == DefAssign && d.Idx < 0:
 			// n = nn where nn ranges over pool.lowPriority keys: must be followed by pendingLeaves[n] = leaf
 			src := objOf(info, d.Rhs)
